@@ -1,6 +1,7 @@
 CONSTANTS
   MaxVer = 4
   NQ = 0
+  NCheck = 0
   QKinds <- KNone
   Orders <- OAll
   Crashes = TRUE
